@@ -124,6 +124,15 @@ class VCRuntime:
         return bytearray(*a)
 
     def b_isinstance(self, x, t):
+        import builtins as _b
+
+        def real(c):
+            # a builtin type name that the instrumenter routed through the proxy algebra (str -> __vc.b_str ...)
+            if isinstance(getattr(c, "__self__", None), VCRuntime) and getattr(c, "__name__", "").startswith("b_"):
+                return getattr(_b, c.__name__[2:])
+            return c
+
+        t = tuple(real(c) for c in t) if isinstance(t, tuple) else real(t)
         ts = t if isinstance(t, tuple) else (t,)
         if isinstance(x, SBool):
             return any(c in (bool, int, object) for c in ts)
